@@ -163,11 +163,17 @@ def scripted_monitor(cmd, o):
             return ("trylock-free-not-0", f"{w[1]} trylock: pthread said 0 (acquired), uv returned `{o}`")
         if c == EBUSY and o != f"ret {-EBUSY}":
             return ("trylock-held-not-ebusy", f"{w[1]} trylock: pthread said EBUSY (held), uv returned `{o}`")
+        if c != 0 and o == "ret 0":
+            return ("try-success-without-lock",
+                    f"{w[1]} trylock: pthread_*_try*lock answered {c} (lock NOT granted) but the uv wrapper returned 0 (no exclusion)")
         return None
     if w[0] == "semtry":
         n, r, e = int(w[1]), int(w[2]), int(w[3])
         if r == 0 and ow[:2] != ["ret", "0"]:
             return ("sem-trywait-success-not-0", f"sem_trywait succeeded after {n} EINTR, uv_sem_trywait gave `{o}`")
+        if r != 0 and ow[:2] == ["ret", "0"]:
+            return ("try-success-without-lock",
+                    f"sem_trywait failed (r={r}, errno={e}: no permit taken) after {n} EINTR but uv_sem_trywait returned 0")
         if r == -1 and e == EAGAIN and ow[:2] != ["ret", str(-EAGAIN)]:
             return ("sem-trywait-zero-not-eagain", f"sem_trywait said EAGAIN (count zero) after {n} EINTR, uv_sem_trywait gave `{o}`")
         return None
@@ -181,6 +187,10 @@ def scripted_monitor(cmd, o):
             return ("timedwait-etimedout-map", f"pthread_cond_timedwait said ETIMEDOUT, uv returned `{res}`")
         if rc == 0 and res != "ret 0":
             return ("timedwait-0-map", f"pthread_cond_timedwait said 0, uv returned `{res}`")
+        if rc != 0 and res == "ret 0":
+            return ("timedwait-success-without-wakeup", f"pthread_cond_timedwait answered {rc} (not woken) but uv_cond_timedwait returned 0")
+        if rc != ETIMEDOUT and res == f"ret {-ETIMEDOUT}":
+            return ("timedwait-timeout-without-etimedout", f"pthread_cond_timedwait answered {rc}, uv_cond_timedwait returned UV_ETIMEDOUT")
         if clk != cclk:
             return ("timedwait-clock-mismatch", f"deadline computed on clock {clk}, condvar waits on clock {cclk}")
         now = sec * NS + nsec
@@ -197,10 +207,14 @@ def scripted_monitor(cmd, o):
             return ("barrier-serial-not-nonzero", f"SERIAL_THREAD -> `{o}`")
         if c == 0 and o != "ret 0":
             return ("barrier-0-not-0", f"barrier rc 0 -> `{o}`")
+        if c not in (0, -1) and ow[0] == "ret":
+            return ("barrier-release-without-barrier", f"pthread_barrier_wait failed with {c} but uv_barrier_wait returned `{o}` (claims the round completed)")
         return None
     if w[0] == "must":
         if int(w[2]) == 0 and o != "ret 0":
             return ("wrapper-abort-on-success", f"uv_{w[1]}: pthread said 0, wrapper did `{o}`")
+        if int(w[2]) != 0 and o == "ret 0":
+            return ("wrapper-success-on-failure", f"uv_{w[1]}: the platform call failed with {w[2]} but the void wrapper returned normally")
         return None
     return ("harness-protocol", f"unknown `{cmd}`")
 
